@@ -181,9 +181,36 @@ class RRELNavigation(RRELBase):
             lookup_list: non-empty name list
 
         Returns:
-            The object indicated by the navigation object,
-            Postponed, None, or a list (if a list has to be processed).
+            The object indicated by the navigation object (the first one, see
+            `get_next_matches` for all of them), Postponed, None, or a list
+            (if a list has to be processed).
         """
+        for res in self._apply_all(obj, lookup_list, matched_path, first_element):
+            return res
+        return None, lookup_list, matched_path
+
+    def get_next_matches(
+        self, obj, lookup_list, allowed, matched_path, first_element=False
+    ):
+        """
+        Yields every object the navigation leads to: each element carrying
+        the requested name (names are not necessarily unique in a collection)
+        and, with the flag `+m`, the elements of each of the other models.
+        """
+        if not allowed(_visited_obj(self, obj, first_element), lookup_list, self):
+            return  # recursion stopper (also adjusts visited objs)
+
+        for res, res_lookup_list, res_matched_path in self._apply_all(
+            obj, lookup_list, matched_path, first_element
+        ):
+            if isinstance(res, list):
+                for iobj in res:
+                    if iobj is not None:
+                        yield iobj, res_lookup_list, res_matched_path
+            else:
+                yield res, res_lookup_list, res_matched_path
+
+    def _apply_all(self, obj, lookup_list, matched_path, first_element):
         assert self.rrel_expression is not None
         from textx.scoping import Postponed
         from textx.scoping.tools import needs_to_be_resolved
@@ -204,59 +231,26 @@ class RRELNavigation(RRELBase):
                     start.append(m)
 
         if len(lookup_list) == 0 and self.consume_name:
-            return None, lookup_list, matched_path
-
-        def lookup(obj):
-            if needs_to_be_resolved(obj, self.name):
-                return Postponed(), lookup_list, matched_path
-            if hasattr(obj, self.name):
-                target = getattr(obj, self.name)
-                if not self.consume_name and self.fixed_name is None:
-                    return target, lookup_list, matched_path  # return list
-                else:
-                    if not isinstance(target, list):
-                        target = [target]
-                    if self.fixed_name is not None:
-                        lst = list(
-                            filter(
-                                lambda x: (
-                                    hasattr(x, "name") and x.name == self.fixed_name
-                                ),
-                                target,
-                            )
-                        )
-                        if len(lst) > 0:
-                            return (
-                                lst[0],
-                                lookup_list,
-                                matched_path + [lst[0]],
-                            )  # return obj
-                        else:
-                            return None, lookup_list, matched_path  # return None
-                    else:
-                        lst = list(
-                            filter(
-                                lambda x: hasattr(x, "name") and x.name == lookup_list[0],
-                                target,
-                            )
-                        )
-                        if len(lst) > 0:
-                            return (
-                                lst[0],
-                                lookup_list[1:],
-                                matched_path + [lst[0]],
-                            )  # return obj
-                        else:
-                            return None, lookup_list, matched_path  # return None
-            else:
-                return None, lookup_list, matched_path
+            return
 
         for start_obj in start:
-            res, res_lookup_list, res_lookup_path = lookup(start_obj)
-            if res:
-                return res, res_lookup_list, res_lookup_path
-
-        return None, lookup_list, matched_path
+            if needs_to_be_resolved(start_obj, self.name):
+                yield Postponed(), lookup_list, matched_path
+                return
+            if not hasattr(start_obj, self.name):
+                continue
+            target = getattr(start_obj, self.name)
+            if not self.consume_name and self.fixed_name is None:
+                if target:
+                    yield target, lookup_list, matched_path  # a list
+                continue
+            if not isinstance(target, list):
+                target = [target]
+            name = self.fixed_name if self.fixed_name is not None else lookup_list[0]
+            rest = lookup_list if self.fixed_name is not None else lookup_list[1:]
+            for x in target:
+                if hasattr(x, "name") and x.name == name:
+                    yield x, rest, matched_path + [x]
 
 
 class RRELBrackets(RRELBase):
